@@ -25,7 +25,13 @@ gnpy/topology/request.py
                             step 5's loop (`if candidates[..]: ... else: msg = ..; raise DisjunctionError(msg)`) -> g_step5
   compare_reqs              whole body template-matched; translated: the two group tests, the shape test (`temp1 ==
                             temp2`), the list of compared attributes                                -> g_same_disj, g_compared_attrs
+  correct_json_route_list   the two blocks stripping the own source / destination (the four pop positions -> g_clean_pops) and the
+                            pop of an unusable LOOSE hop (matched literally)
+  compare_reqs (also in RouteGen)  the compared attributes -> g_twin_attrs
+gnpy/topology/topology_parameters.py
+  BaseParams.update_attr    matched literally with the template of harness/pygen_c16.py (defaults copied per instance)
 gnpy/tools/json_io.py
+  requests_from_json        matched literally: route objects sorted by x['index'], lists read in that order
   network_from_json         the connection loop template-matched; translated: the test deciding that an edge carries a
                             length, the length expression, the placeholder weight                    -> g_edge_weight
 """
@@ -336,7 +342,89 @@ for cx in json_data['connections']:
         raise NetworkTopologyError(msg) from exc
 """
 
+CLEAN_ENDS = """
+if pathreq.nodes_list and pathreq.source == pathreq.nodes_list[0]:
+    pathreq.loose_list.pop(H_p1)
+    pathreq.nodes_list.pop(H_p2)
+if pathreq.nodes_list and pathreq.destination == pathreq.nodes_list[-1]:
+    pathreq.loose_list.pop(H_p3)
+    pathreq.nodes_list.pop(H_p4)
+"""
+
+CLEAN_LOOSE = """
+pathreq.loose_list.pop(H_where)
+pathreq.nodes_list.remove(n_id)
+"""
+
+ROUTE_OBJECTS = """
+try:
+    nd_list = sorted(req['explicit-route-objects']['route-object-include-exclude'], key=lambda x: x['index'])
+except KeyError:
+    nd_list = []
+"""
+
 KINDS = {'Transceiver': '(is_trx n {x})', 'Roadm': '(is_roadm n {x})'}
+
+
+def shared_fragments(repo, tree, out):
+    """fragments carried by both generated files: route-list clean-up, twin test, request defaults, JSON route objects"""
+    fn = find(tree, 'correct_json_route_list')
+    b = find_block(fn, CLEAN_ENDS, 'correct_json_route_list (own source first / destination last)')
+    pops = [const_int_signed(b[h], 'correct_json_route_list') for h in ('H_p1', 'H_p2', 'H_p3', 'H_p4')]
+    b = find_block(fn, CLEAN_LOOSE, 'correct_json_route_list (unusable LOOSE hop)')
+    if ast.unparse(b['H_where']) != 'pathreq.nodes_list.index(n_id)':
+        raise Unsupported('correct_json_route_list: the hop type popped with an unusable LOOSE hop is not the one at '
+                          '`pathreq.nodes_list.index(n_id)`: ' + ast.unparse(b['H_where']))
+    out.append('(* request.py: correct_json_route_list: positions popped from loose_list / nodes_list when the own source is')
+    out.append('   listed first, the own destination last (Python indices); an unusable LOOSE hop pops the hop type found at')
+    out.append('   nodes_list.index(n_id) (matched literally) *)')
+    out.append('Definition g_clean_pops : list Z := [' + '; '.join(pops) + '].\n')
+    # compare_reqs: what makes two requests twins
+    attrs = compared_attrs(tree)
+    out.append('(* request.py: compare_reqs, the attributes that must be equal (plain `req1.x == req2.x`) *)')
+    out.append('Definition g_twin_attrs : list string :=\n  [' + '; '.join(f'"{a}"' for a in attrs) + ']%string.\n')
+    # request defaults are copied per instance
+    from .pygen_c16 import UPDATE_ATTR
+    ptree = ast.parse(open(os.path.join(repo, 'gnpy/topology/topology_parameters.py')).read())
+    match_template(UPDATE_ATTR, strip_doc(find(ptree, 'BaseParams.update_attr').body), 'BaseParams.update_attr')
+    out.append('(* topology_parameters.py: BaseParams.update_attr matched literally: list and dict defaults are deep-copied per')
+    out.append('   instance, so no PathRequest shares nodes_list / loose_list with another one (batches are independent) *)\n')
+    # JSON route objects are ordered by their numeric index
+    jtree = ast.parse(open(os.path.join(repo, 'gnpy/tools/json_io.py')).read())
+    jfn = find(jtree, 'requests_from_json')
+    find_block(jfn, ROUTE_OBJECTS, 'requests_from_json (route objects sorted by x[\'index\'])')
+    src = ast.unparse(jfn)
+    for piece in ("'nodes_list': [n['num-unnum-hop']['node-id'] for n in nd_list]",
+                  "'loose_list': [n['num-unnum-hop']['hop-type'] for n in nd_list]"):
+        if src.count(piece) != 1:
+            raise Unsupported('requests_from_json: ' + piece + ' not found')
+    out.append('(* json_io.py: requests_from_json matched literally: the route objects are sorted by x[\'index\'] (numeric), the')
+    out.append('   include list and the hop types are read from them in that order *)\n')
+
+
+def const_int_signed(n, what):
+    if isinstance(n, ast.UnaryOp) and isinstance(n.op, ast.USub) and isinstance(n.operand, ast.Constant) \
+            and isinstance(n.operand.value, int):
+        return f'(-{n.operand.value})'
+    return const_int(n, what)
+
+
+def compared_attrs(tree):
+    b = match_template(COMPARE_TEMPLATE, no_comments_body(find(tree, 'compare_reqs')), 'compare_reqs')
+    allc = b['H_all']
+    if not (isinstance(allc, ast.BoolOp) and isinstance(allc.op, ast.And)):
+        raise Unsupported('compare_reqs: final condition is not a conjunction')
+    attrs = []
+    for v in allc.values[:-1]:
+        if not (isinstance(v, ast.Compare) and len(v.ops) == 1 and isinstance(v.ops[0], ast.Eq)
+                and isinstance(v.left, ast.Attribute) and isinstance(v.comparators[0], ast.Attribute)
+                and dotted(v.left.value) == 'req1' and dotted(v.comparators[0].value) == 'req2'
+                and v.left.attr == v.comparators[0].attr):
+            raise Unsupported('compare_reqs: a conjunct is not `req1.x == req2.x`: ' + ast.unparse(v))
+        attrs.append(v.left.attr)
+    if not (isinstance(allc.values[-1], ast.Name) and allc.values[-1].id == 'same_disj'):
+        raise Unsupported('compare_reqs: the conjunction does not end with same_disj')
+    return attrs
 
 
 def no_comments_body(fn):
@@ -411,6 +499,7 @@ def gen_route(repo):
     out.append('(* json_io.py: network_from_json, weight of the edge leaving a node (cm; is_fibre = isinstance(node, Fiber)) *)')
     out.append(f'Definition g_edge_weight (is_fibre : bool) (length_cm : Z) : Z :=\n'
                f'  if is_fibre then length_cm else {round(cm)}.\n')
+    shared_fragments(repo, tree, out)
     # ---- compute_path_dsjctn step 4: the include clause of C11 for the members of a synchronisation vector
     ok, strict = step4_terms(find(tree, 'compute_path_dsjctn'))
     out.append('(* request.py: compute_path_dsjctn step 4 (full_path = the candidate, short_path = its ROADM short list) *)')
@@ -473,6 +562,10 @@ def gen_disjoint(repo):
     out.append('(* request.py: compute_path_dsjctn step 5 *)')
     out.append(f'Definition g_step5 (has_candidates : bool) : res unit :=\n  if {tr.b(b["H_has"])} then Ok tt '
                f'else Err "{exc.func.id}".\n')
+    # ---- find_reversed_path (the reverse candidates of step 1): matched literally, its class filter translated
+    b = match_template(FRP_TEMPLATE, no_comments_body(find(tree, 'find_reversed_path')), 'find_reversed_path')
+    out.append('(* request.py: find_reversed_path matched literally (a crossed OMS without reverse OMS raises ValueError); filter: *)')
+    out.append(f'Definition g_rev_keeps (n : net) (el : Z) : bool :=\n  {RTr({"el": "el"}, KINDS).b(b["H_keep"])}.\n')
     # ---- compare_reqs
     b = match_template(COMPARE_TEMPLATE, no_comments_body(find(tree, 'compare_reqs')), 'compare_reqs')
     tr = RTr({'dis1': 'BOOL:(in_some r1 gs)', 'dis2': 'BOOL:(in_some r2 gs)', 'temp1': '(shape r1 gs)',
@@ -500,6 +593,7 @@ def gen_disjoint(repo):
         raise Unsupported('compare_reqs: the conjunction does not end with same_disj')
     out.append('(* request.py: compare_reqs, the attributes that must be equal *)')
     out.append('Definition g_compared_attrs : list string :=\n  [' + '; '.join(f'"{a}"' for a in attrs) + ']%string.\n')
+    shared_fragments(repo, tree, out)
     return '\n'.join(out)
 
 
